@@ -465,6 +465,8 @@ def _run_symbolic(which, gens, r, k, rows_only=False):
             if symbolic:
                 shim.__dict__['linalg'] = real_linalg
     LAST.clear(); LAST.update(args=rec.get('args'), M_is_out=rec.get('M') is rec.get('out'))
+    if 'out' not in rec or 'M' not in rec:
+        raise Unsupported('recorder stubs (opt_einsum.contract / scipy.linalg.lu) were not reached: the certificate is computed differently now')
     if which == 'bipartite':
         R = SS.arr(rec['out'])
     else:
@@ -701,6 +703,8 @@ def job_charts(tier, rng, cls, m, n):
         N0 = 2; nb = 2
         G = _chart_gens(cls, N0, m, n)
         rec, basis, comp, kind, log = _chart_run(cls, G, field, nb, True)
+        if 'B' not in rec or 'coords' not in rec:
+            return [ob(f'{base}.explore[{sh}]', 'undecided', functions=funcs, tier='P', backend='sympy', detail='the function no longer goes through reduce_vector_space: the recorder stub was not reached')]
         B, C = rec['B'], rec.get('C')
         X = SS.arr(rec['coords'])
         D = X.shape[1]
